@@ -1010,10 +1010,12 @@ Proof. vm_compute. reflexivity. Qed.
 (* ... and for x >= 2^256 the returned key cannot even be turned into text *)
 Definition w_pair_text2 : text :=
   text_of_string "115792089237316195423570985008687907853269984665640564039457584007913129639936/even".
+Definition w_pair_key2 : obj :=
+  OKey (Pub (2 ^ 256, 100174509157537212670360016818575022683172396031429643043046884876835858608200)) true.
 Lemma w_pair_overflow :
-  exists o, public_pair dec10 no_int mulG_w modsqrt_real btc_cfg w_pair_text2 = Ret (Some o) /\
-            public_key_text btc_cfg o = Raise E_OVERFLOW.
-Proof. eexists. split; vm_compute; reflexivity. Qed.
+  public_pair dec10 no_int mulG_w modsqrt_real btc_cfg w_pair_text2 = Ret (Some w_pair_key2) /\
+  public_key_text btc_cfg w_pair_key2 = Raise E_OVERFLOW.
+Proof. split; vm_compute; reflexivity. Qed.
 (* the same acceptance through Key.__init__ in electrum_pub *)
 Definition w_electrum_text : text :=
   text_of_string "E:fffffffffffffffffffffffffffffffffffffffffffffffffffffffefffffc304218f20ae6c646b363db68605822fb14264ca8d2587fdd6fbc750d587e76a7ee".
@@ -1034,3 +1036,4 @@ Lemma w_seed_empty_prefix : seed_secret [58%N] = Ret (Some []) /\ seed_secret (t
 Proof. split; vm_compute; reflexivity. Qed.
 
 Local Opaque Z.pow Z.modulo Z.mul Z.add Z.sub Z.land.
+
